@@ -124,3 +124,52 @@ Fixpoint kmerge_mismatches_from (k : nat) (cs : list kmerge_case) : list nat :=
   | c :: r => if kmerge_ok c then kmerge_mismatches_from (S k) r else k :: kmerge_mismatches_from (S k) r
   end.
 Definition kmerge_mismatches := kmerge_mismatches_from 0.
+
+(* ------------------------------------------------------------------------------------------------ *)
+(* store-side cases (harness cmd/c08s): the partial rows the REAL store-side reader emitted for one statement, folded by
+   the model's own combination of partial aggregates, against the reference semantics over the logical contents *)
+Definition store_cell := option (Z * Z).          (* value, time the cell is stamped with *)
+Definition store_row := (Z * list store_cell)%type. (* row time, cells *)
+Definition store_case := (database * query * list (list Z * list store_row))%type.
+
+Definition store_part (fn : aggfn) (c : store_cell) : option part :=
+  match c with
+  | None => None
+  | Some (v, t) => Some match fn with
+                        | FCount => (v, 0, (0, 0))
+                        | FSum => (0, v, (0, 0))
+                        | _ => (1, v, (t, v))
+                        end
+  end.
+Fixpoint store_prow (aggs : list aggcol) (cells : list store_cell) : prow :=
+  match aggs, cells with
+  | (fn, _, _) :: aggs', c :: cells' => store_part fn c :: store_prow aggs' cells'
+  | _, _ => []
+  end.
+Definition store_fold (q : query) (aggs : list aggcol) (rows : list store_row) : list arow :=
+  finalize aggs (kagg aggs (ksort (filter has_value (map (fun r : store_row => (bkey q (fst r), store_prow aggs (snd r))) rows)))).
+Definition store_expect (q : query) (aggs : list aggcol) (ms : list series) : list arow :=
+  let a := agg_group false q aggs ms in
+  if q_interval q =? 0 then match a with [(_, cs)] => [(0, cs)] | x => x end else a.
+
+Fixpoint rows_of_key (k : list Z) (parts : list (list Z * list store_row)) : list store_row :=
+  match parts with
+  | [] => []
+  | (k', rows) :: r => if zlist_eqb k k' then rows ++ rows_of_key k r else rows_of_key k r
+  end.
+
+Definition store_ok (c : store_case) : bool :=
+  let '(db, q, parts) := c in
+  match q_sel q with
+  | SelAgg aggs =>
+      let ks := keys_of q db in
+      forallb (fun k => list_eqb arow_eqb (store_fold q aggs (rows_of_key k parts)) (store_expect q aggs (members q db k))) ks
+      && forallb (fun p : list Z * list store_row => existsb (zlist_eqb (fst p)) ks || match snd p with [] => true | _ => false end) parts
+  | _ => false
+  end.
+Fixpoint store_mismatches_from (k : nat) (cs : list store_case) : list nat :=
+  match cs with
+  | [] => []
+  | c :: r => if store_ok c then store_mismatches_from (S k) r else k :: store_mismatches_from (S k) r
+  end.
+Definition store_mismatches := store_mismatches_from 0.
